@@ -1690,6 +1690,11 @@ def gen_macro_case(seed, idx):
     s_arg = rng.choice(['"x"', 'String::from("x")', 'helpers::SX'])
     if grp and 'Default' in traits and shape != 'enum' and rng.random() < 0.7:
         sdef = '#[default($s)] '
+    # a comparison function that arrives as a fragment (`by = $f` with `$f:expr` / `$f:path`), on the first field
+    byfrag = ''
+    if grp and cmpset and 'Hash' not in traits and attrs[0] == '' and argty[0] != 'bool' and rng.random() < 0.5:
+        byfrag = rng.choice(['expr', 'path'])
+        attrs[0] = '#[ord(by = $f)] '
     if shape == 'tuple':
         body = f'pub struct $name({attrs[0]}pub $a, {attrs[1]}pub $b' + (f', pub {arr}, {sdef}pub String' if grp else '') + ');'
         chk = 'pub fn _chk(x: &X) -> &[u8; 4] { &x.2 }\n'
@@ -1700,8 +1705,8 @@ def gen_macro_case(seed, idx):
         dflt = '#[default] ' if 'Default' in traits else ''
         body = f'pub enum $name {{ {dflt}Unit, Tup({attrs[0]}$a, {attrs[1]}$b), Rec {{ x: $b }}' + (f', Arr({arr})' if grp else '') + ' }'
         chk = 'pub fn _chk(x: X) { if let X::Arr(a) = x { let _: [u8; 4] = a; } }\n'
-    extra_params = ', $n:expr, $s:expr' if grp else ''
-    extra_args = f', {n_arg}, {s_arg}' if grp else ''
+    extra_params = (', $n:expr, $s:expr' if grp else '') + (f', $f:{byfrag}' if byfrag else '')
+    extra_args = (f', {n_arg}, {s_arg}' if grp else '') + (', helpers::fo' if byfrag else '')
     mac = (f'macro_rules! mk {{ ($name:ident, $a:{frag[kinds[0]]}, $b:{frag[kinds[1]]}{extra_params}) => {{ {head} {body} }} }}\n'
            f'mk!(X, {argty[0]}, {argty[1]}{extra_args});\n' + (chk if grp else ''))
     return dict(id=f'mac/{seed}/{idx}', item=mac, src=PRELUDE + mac, traits=traits,
